@@ -239,6 +239,13 @@ def check(ck):
     heads = [m for m in gcg.live_nodes() for cc in node_calls(m) if isinstance(cc.func, ast.Name) and cc.func.id == "print" and cc.args]
     dom_cg = dominators(gcg)
     okk = len(blank) == 1 and bool(wcg) and blank[0].id in dom_cg[wcg[0][0].id] and all(h.id in dom_cg[blank[0].id] for h in heads) and len(heads) >= 2
+    # the header lines go through the text layer of stdout, the body through its binary buffer: the text layer is flushed
+    # after the empty line and before the body is written
+    flushes = [m for m in gcg.live_nodes() for cc in node_calls(m) if dump(cc.func) == "sys.stdout.flush"]
+    okf = bool(blank) and bool(wcg) and any(blank[0].id in dom_cg[f_.id] and f_.id in dom_cg[wcg[0][0].id] for f_ in flushes)
+    ck.require(okf, "C01.8", "%s: stdout flushed between the header block and the body" % q.fn(fcgi), "print(); sys.stdout.flush(); writer.write(body)",
+               "the text layer of stdout is not flushed after the empty line and before the body is written to the binary buffer: the body can "
+               "reach the web server before (or inside) the header block", q.loc(fcgi, fcgi.node))
     ck.require(okk, "C01.8", "%s: headers, empty line, body" % q.fn(fcgi), "print() between the header lines and the body",
                "the CGI reply is not <header lines> <empty line> <body>: the web server cannot separate the headers from the JSON text", q.loc(fcgi, fcgi.node))
 
